@@ -1,6 +1,7 @@
 package mon
 
 import (
+	"errors"
 	"fmt"
 	"math/rand/v2"
 	"strings"
@@ -25,6 +26,7 @@ type abortPlan struct {
 	When        string // before | after | without   (relative to the handler's own Next())
 	ExtraNext   bool   // one more Next() after the abort
 	WriteBefore bool   // a body byte is written before the abort (response already committed)
+	AddError    bool   // the aborting handler records an error (c.AddError) right before it aborts
 	PreStatus   int    // != 0: the FIRST handler of the chain records this status (without committing) before anything else
 	Code        int
 }
@@ -47,6 +49,9 @@ func (h hb) String() string {
 	}
 	if a.PreStatus != 0 {
 		s += fmt.Sprintf(" after-first-handler-SetStatus(%d)", a.PreStatus)
+	}
+	if a.AddError {
+		s += " AddError-before-abort"
 	}
 	return s + ")"
 }
@@ -77,6 +82,9 @@ func (h hb) handler() rux.HandlerFunc {
 				c.Next()
 			}
 			ia(c, rec, "pre")
+			if a.AddError {
+				c.AddError(errors.New("recorded before the abort"))
+			}
 			switch a.Kind {
 			case "Abort":
 				c.Abort()
@@ -339,6 +347,7 @@ func runC05(e *Env) {
 					if (t.Idx/3)%2 == 0 {
 						h.Ab.PreStatus = []int{503, 201, 404}[(t.Idx/5)%3]
 					}
+					h.Ab.AddError = (t.Idx/7)%3 == 0
 				}
 			} else {
 				if subset>>uint(bit)&1 == 1 {
@@ -389,6 +398,7 @@ func runC05(e *Env) {
 					if chance(r, 1, 2) {
 						h.Ab.PreStatus = pick(r, []int{503, 404, 201, 200})
 					}
+					h.Ab.AddError = chance(r, 1, 3)
 				}
 			}
 			cc.Chain = append(cc.Chain, h)
@@ -409,6 +419,10 @@ func runC05(e *Env) {
 		t.Count("long.total_"+itoa(total), 1)
 		c05Check(t, cc)
 	})
+	// an abort inside a chain that was reached through HandleContext (re-dispatch from the LAST
+	// handler of the outer chain... or from an earlier one): it must stop the outer chain as well
+	e.RunCases("redispatch-abort", e.N(1500, 100000), 0, c05Redispatch)
+	e.Require("redispatch.checked", 1000)
 	e.Require("abort.before_next", 1000)
 	e.Require("abort.after_next", 1000)
 	e.Require("abort.with_status_uncommitted", 500)
@@ -557,3 +571,109 @@ func c05Classify(want, got []string) string {
 }
 
 var _ = rand.IntN
+
+// c05Redispatch: handler j of the outer chain hands the context to the router again
+// (HandleContext) for a second path; a handler of THAT chain aborts.
+func c05Redispatch(t *T) {
+	r := t.R
+	nOuter := 1 + r.IntN(5)
+	j := r.IntN(nOuter)
+	nInner := 1 + r.IntN(4)
+	k := r.IntN(nInner)
+	kind := pick(r, []string{"Abort", "AbortThen", "AbortWithStatus"})
+	extraNext := chance(r, 1, 2)
+	code := pick(r, []int{401, 403, 422})
+	t.Describe(func() any {
+		return map[string]any{"outer_chain_handlers": nOuter, "redispatching_handler": j, "inner_chain_handlers": nInner, "aborting_inner_handler": k, "abort": kind, "Next_after_abort": extraNext}
+	})
+	t.AutoSample()
+	router := rux.New()
+	mkOuter := func(i int) rux.HandlerFunc {
+		return func(c *rux.Context) {
+			rec := recOf(c)
+			rec.Ev("enter(o%d)", i)
+			if i == j && c.Req.URL.Path != "/inner" {
+				c.Req.URL.Path = "/inner"
+				c.Router().HandleContext(c)
+				rec.Ev("redispatch-returned(o%d) aborted=%v", i, c.IsAborted())
+			}
+			c.Next()
+			rec.Ev("leave(o%d) aborted=%v", i, c.IsAborted())
+		}
+	}
+	mkInner := func(i int) rux.HandlerFunc {
+		return func(c *rux.Context) {
+			rec := recOf(c)
+			rec.Ev("enter(i%d)", i)
+			if i == k {
+				switch kind {
+				case "Abort":
+					c.Abort()
+				case "AbortThen":
+					c.AbortThen()
+				default:
+					c.AbortWithStatus(code)
+				}
+				rec.Ev("abort(i%d) aborted=%v", i, c.IsAborted())
+				if extraNext {
+					c.Next()
+				}
+			} else {
+				c.Next()
+			}
+			rec.Ev("leave(i%d) aborted=%v", i, c.IsAborted())
+		}
+	}
+	var outer, inner []rux.HandlerFunc
+	for i := 0; i < nOuter; i++ {
+		outer = append(outer, mkOuter(i))
+	}
+	for i := 0; i < nInner; i++ {
+		inner = append(inner, mkInner(i))
+	}
+	router.GET("/outer", outer[nOuter-1], outer[:nOuter-1]...)
+	router.GET("/inner", inner[nInner-1], inner[:nInner-1]...)
+	rec, pv, panicked := Serve(router, NewReq("GET", "/outer"))
+	if panicked {
+		t.Fail("servehttp-panic", "re-dispatch with an aborting inner chain panicked: %v", pv)
+		return
+	}
+	// specification: outer handlers 0..j enter; inner handlers 0..k enter; the abort; nothing else
+	// starts; every suspended handler resumes (inner k..0, then the re-dispatching handler and the
+	// outer ones before it) and sees IsAborted()==true
+	var want []string
+	for i := 0; i <= j; i++ {
+		want = append(want, fmt.Sprintf("enter(o%d)", i))
+	}
+	for i := 0; i <= k; i++ {
+		want = append(want, fmt.Sprintf("enter(i%d)", i))
+	}
+	want = append(want, fmt.Sprintf("abort(i%d) aborted=true", k))
+	for i := k; i >= 0; i-- {
+		want = append(want, fmt.Sprintf("leave(i%d) aborted=true", i))
+	}
+	want = append(want, fmt.Sprintf("redispatch-returned(o%d) aborted=true", j))
+	for i := j; i >= 0; i-- {
+		want = append(want, fmt.Sprintf("leave(o%d) aborted=true", i))
+	}
+	t.Count("redispatch.checked", 1)
+	t.NonTrivial(fmt.Sprint(nOuter, j, nInner, k, kind, extraNext))
+	t.Tracef("trace: %s", strings.Join(rec.Events, " "))
+	if !eventsEqual(want, rec.Events) {
+		sig := "redispatch-trace"
+		for _, ev := range rec.Events {
+			if strings.HasPrefix(ev, "enter(o") {
+				var n int
+				fmt.Sscanf(ev, "enter(o%d)", &n)
+				if n > j {
+					sig = "outer-handler-started-after-inner-abort"
+				}
+			}
+		}
+		t.Fail(sig, "outer chain of %d handlers, handler o%d re-dispatches to a chain of %d handlers whose i%d calls %s:\n expected trace: %s\n observed trace: %s", nOuter, j, nInner, k, kind, strings.Join(want, " "), strings.Join(rec.Events, " "))
+		return
+	}
+	if kind == "AbortWithStatus" && (rec.Status() != code || rec.NumWH() != 1) {
+		t.Fail("redispatch-abort-status", "AbortWithStatus(%d) inside the re-dispatched chain: the writer saw %s", code, rec.CallLog())
+	}
+}
